@@ -1,12 +1,18 @@
 (* C18 — flat-integer interface of the model for the generic OCaml driver.
 
-   input:   N dry fit sel dev anom K Kn
-            cpu(low high plow phigh) mem(low high plow phigh) pods(low high plow phigh)   (percent, -1 = absent pair)
-            wcpu wmem wpods
-            n   then n x (capCpuMilli capMemBytes capPods member)
-            R   then R rounds, each: n x (unsched fresh sysCpu sysMem np  then np x (pid ns prio hasMetric cpu mem filt evok))   ns: 0,1 evictable namespaces, 2,3 excluded ones
+   input:   N dry fit paused                                                  (paused: Balance does nothing)
+            P   then P x (sel dev anom K Kn
+                          cpu(low high plow phigh) mem(low high plow phigh) pods(low high plow phigh)   (percent, -1 = absent pair)
+                          wcpu wmem wpods)
+                sel = NodeSelector of the pool: 0 nil, 1 {}, 2 matchLabels a, 3 matchLabels b, 4 Exists, 5 In [a],
+                      6 In [a,b], 7 NotIn [a], 8 DoesNotExist, 9 empty non-nil matchLabels + matchExpressions
+            n   then n x (capCpuMilli capMemBytes capPods label rawKind rawCpu rawMem rawPods)
+                label: 0 none, 1 "a", 2 "b";  rawKind: raw-allocatable annotation 0 absent, 1 cpu+memory+pods, 2 cpu only, 3 not JSON
+            R   then R rounds, each: n x (unsched fresh sysCpu sysMem
+                                          np  then np x (pid ns prio hasMetric cpu mem filt evok)     ns: 0,1 evictable namespaces, 2,3 excluded ones
+                                          nx  then nx x (ns pid cpu mem))                             further podsMetric entries (stale / duplicate)
    observable, per round:
-            k   then k x (node ns pod)   the Evict calls in order (node = 1-based index)
+            k   then k x (node ns pod)   the Evict calls of the Balance call in order (node = 1-based index)
             then n x (nodeDetector prodDetector)   -1 = none, else state*1000000 + consAbn*1000 + consNorm *)
 From Coq Require Import String List ZArith Bool.
 From Verif Require Import Lib.Wire C18.Model C18.Spec.
@@ -18,33 +24,48 @@ Definition dec_pod (l : list Z) : pod * list Z :=
   | a :: n :: b :: m :: cp :: me :: f :: e :: t => (mkPod a n b (zb m) cp me f (zb e), t)
   | _ => (mkPod 0 0 0 false 0 0 0 false, [])
   end.
+Definition dec_extra (l : list Z) : (Z * Z * Z * Z) * list Z :=
+  match l with
+  | n :: a :: cp :: me :: t => ((n, a, cp, me), t)
+  | _ => ((0, 0, 0, 0), [])
+  end.
 Definition dec_nround (l : list Z) : nround * list Z :=
   match l with
   | u :: f :: sc :: sm :: t =>
-      let '(ps, r) := decode_seq dec_pod t in (mkNround (zb u) f sc sm ps, r)
-  | _ => (mkNround false 0 0 0 [], [])
+      let '(ps, r) := decode_seq dec_pod t in
+      let '(xs, r') := decode_seq dec_extra r in (mkNround (zb u) f sc sm ps xs, r')
+  | _ => (mkNround false 0 0 0 [] [], [])
   end.
 Definition dec_nstat (l : list Z) : nstat * list Z :=
   match l with
-  | a :: b :: p :: m :: t => (mkNstat a b p (zb m), t)
-  | _ => (mkNstat 0 0 0 false, [])
+  | a :: b :: p :: m :: k :: rc :: rm :: rp :: t => (mkNstat a b p m k rc rm rp, t)
+  | _ => (mkNstat 0 0 0 0 0 0 0 0, [])
   end.
 Definition dec_thr (l : list Z) : thr4 * list Z :=
   match l with
   | a :: b :: p :: q :: t => (mkThr4 a b p q, t)
   | _ => (mkThr4 (-1) (-1) (-1) (-1), [])
   end.
-
-Definition decode (inp : list Z) : cfg * list nstat * list (list nround) :=
-  match inp with
-  | n :: dry :: fit :: sel :: dev :: anom :: k :: kn :: t =>
+Definition dec_pool (n dry fit : Z) (l : list Z) : cfg * list Z :=
+  match l with
+  | sel :: dev :: anom :: k :: kn :: t =>
     let '(ths, t1) := decode_many dec_thr 3 t in
     let '(ws, t2) := take_n 3 t1 in
+    (mkCfg n (zb dry) (zb fit) sel (zb dev) (zb anom) k kn ths ws, t2)
+  | _ => (mkCfg 0 false false 0 false false 0 0 [] [], [])
+  end.
+
+Definition decode (inp : list Z) : list cfg * list nstat * list (list nround) :=
+  match inp with
+  | n :: dry :: fit :: paused :: t =>
+    let '(bc0, t2) := decode_seq (dec_pool n dry fit) t in
+    (* LowNodeLoadArgs.Paused: Balance returns before looking at any pool *)
+    let bc := if zb paused then [] else bc0 in
     let '(ns, t3) := decode_seq dec_nstat t2 in
     let nn := length ns in
     let '(rounds, _) := decode_seq (decode_many dec_nround nn) t3 in
-    (mkCfg n (zb dry) (zb fit) (zb sel) (zb dev) (zb anom) k kn ths ws, ns, rounds)
-  | _ => (mkCfg 0 false false false false false 0 0 [] [], [], [])
+    (bc, ns, rounds)
+  | _ => ([], [], [])
   end.
 
 Definition det_code (o : option det) : Z :=
@@ -53,14 +74,15 @@ Definition det_code (o : option det) : Z :=
   | Some d0 => let d := cur d0 in bz (dst d) * 1000000 + dA d * 1000 + dN d
   end.
 
-Definition enc_round (n : nat) (r : list ev * dstate) : list Z :=
-  let '(evs, (dn, dp)) := r in
+Definition enc_round (n : nat) (r : list (ptab * list ev) * dstate) : list Z :=
+  let '(l, (dn, dp)) := r in
+  let evs := evs_of l in
   Z.of_nat (length evs) :: flat_map (fun e => [fst e; fst (snd e); snd (snd e)]) evs
   ++ flat_map (fun i => [det_code (dget (Z.of_nat i) dn); det_code (dget (Z.of_nat i) dp)]) (seq 1 n).
 
 Definition run_case (inp : list Z) : list Z :=
-  let '(c, ns, rounds) := decode inp in
-  flat_map (enc_round (length ns)) (run c ns rounds ([], [])).
+  let '(bc, ns, rounds) := decode inp in
+  flat_map (enc_round (length ns)) (run bc ns rounds ([], [])).
 
 (* the Evict calls of each round, from the implementation's observable *)
 Fixpoint dec_evs (k : nat) (l : list Z) : list ev * list Z :=
@@ -84,26 +106,45 @@ Fixpoint dec_obs (rounds : nat) (n : nat) (l : list Z) : list (list ev) * bool :
     end
   end.
 
-(* 0 = holds; 1..9 clause of Spec.v; 7 = only the strict reading of the anomaly gate fails *)
+(* 0 = holds; 1..11 clause of Spec.v; 7 = only the strict reading of the anomaly gate fails.
+   The pools' node sets and tables are those of the code as it is in /repo. *)
 Definition prop_case (inp obs : list Z) : Z :=
-  let '(c, ns, rounds) := decode inp in
+  let '(bc, ns, rounds) := decode inp in
   let '(o, ok) := dec_obs (length rounds) (length ns) obs in
   if negb ok then 9
-  else
-    let tb := tables c ns rounds in
-    let k := check_hist c tb o [] in        (* = prop_code c ns rounds o *)
-    if negb (k =? 0) then k else check_strict c tb o [].
+  else prop_code (tables reset_on_normal processed_repaired bc ns rounds) o.
 
 (* a history is non-trivial when the model evicts at least once in it *)
 Definition nontrivial_case (inp : list Z) : bool :=
-  let '(c, ns, rounds) := decode inp in
-  let res := run c ns rounds ([], []) in
-  existsb (fun r => negb (is_nil (fst r))) res.
+  let '(bc, ns, rounds) := decode inp in
+  let res := run bc ns rounds ([], []) in
+  existsb (fun r => negb (is_nil (evs_of (fst r)))) res.
 
-(* known finding 1: ConsecutiveAbnormalities also counts rounds that are not consecutive.
-   Once the repair is in ([reset_on_normal] = true) clause 7 is an ordinary violation. *)
+Fixpoint zlist_eqb (a b : list Z) : bool :=
+  match a, b with
+  | [], [] => true
+  | x :: a', y :: b' => (x =? y) && zlist_eqb a' b'
+  | _, _ => false
+  end.
+
+(* known findings; every shape requires that the implementation did exactly what the faithful
+   model does, so that any other departure is still reported.
+   1  (repaired in /repo) ConsecutiveAbnormalities also counted rounds that are not consecutive
+   2  a node relieved by an earlier pool of the same Balance call is relieved again by a later
+      pool on the strength of its stale measured usage (clause 11): a pool with a nil selector
+      ignores processedNodes, and prod-high source nodes are never recorded in it
+   3  pools that overlap share one detector per node: a node that is a source in two pools is
+      marked abnormal twice in one Balance call, and the gate opens after fewer rounds than
+      ConsecutiveAbnormalities requires (clauses 6 / 7) *)
 Definition finding_sig (inp obs : list Z) : Z :=
-  if reset_on_normal then 0 else if prop_case inp obs =? 7 then 1 else 0.
+  let k := prop_case inp obs in
+  if k =? 0 then 0
+  else if negb (zlist_eqb obs (run_case inp)) then 0
+  else if negb reset_on_normal && (k =? 7) then 1
+  else if negb processed_repaired && (k =? 11) then 2
+  else if (k =? 6) || (k =? 7) then
+    (let '(bc, ns, _) := decode inp in if disjoint_pools bc ns then 0 else 3)
+  else 0.
 
 Require Extraction.
 Require Import ExtrOcamlBasic.
